@@ -38,6 +38,9 @@ def run(ctx: Ctx):
     from .common import public_values_assembled
 
     public_values_assembled(ctx, "public-assembled", "_Slice", ("zscores", "pvals", "residual_test_stats"))
+    from .common import axis_role_lint
+
+    axis_role_lint(ctx, "axis-roles", entries=("zscores", "pvals", "residual_test_stats"))
 
 
 def formula(ctx: Ctx):
